@@ -1012,6 +1012,9 @@ func main() {
 			}
 		}
 	}
+	if rep.Cases == nil {
+		rep.Cases = []vh.Case{} // ./check iterates over the list
+	}
 	if err := rep.Write(*out); err != nil {
 		fmt.Fprintln(os.Stderr, err)
 		os.Exit(2)
